@@ -632,6 +632,13 @@ func genPoolUse(byDir map[string]*parsed) []*genFile {
 	g.pf("(* internal/decoder: calls of UnmarshalJSON / UnmarshalText, and those that are handed a slice of the stream window (s.buf) without a copy *)\n")
 	g.pf("Definition callback_sites : nat := %d.\n", nsites)
 	emit("callback_gets_stream_window", streamAlias)
+	// encoder side: what MarshalJSON / MarshalText return is only read
+	cbw, cbsites := callbackResultWrites(byDir["internal/encoder"])
+	g.pf("(* internal/encoder: calls of MarshalJSON / MarshalText, and the places that write through the slice such a call\n   returned (append to it, assign an element, copy into it), followed through assignments and calls *)\n")
+	g.pf("Definition marshaler_call_sites : nat := %d.\n", cbsites)
+	emit("marshaler_result_written", cbw)
+	facts["marshaler_call_sites"] = cbsites
+	facts["marshaler_result_written"] = cbw
 	facts["callback_sites"] = nsites
 	facts["callback_gets_stream_window"] = streamAlias
 	facts["pool_unresolved_types"] = unresolvedTypes
